@@ -20,6 +20,7 @@ import (
 
 // Prog is everything loaded from the working tree of the repository.
 type Prog struct {
+	calleeSorts map[string][]Sort // result sorts of callees by name (lastresult stand-ins)
 	RepoDir string
 	Fset    *token.FileSet
 	Pkg     *packages.Package
